@@ -395,8 +395,35 @@ pub fn judge(fx: &Fixture, bytes: &[u8], kind: &str, shape: &str, col: &Collecto
             return Ok(());
         }
     };
-    if fx.issued.iter().any(|(_, k, _)| *k == forged) {
-        col.class("forgeries:equal-to-an-issued-key(skipped)");
+    if let Some((_, _, iw)) = fx.issued.iter().find(|(_, k, _)| *k == forged) {
+        let ib = iw.encode();
+        if ib == bytes {
+            col.class("forgeries:identical-to-an-issued-key(skipped)");
+            return Ok(());
+        }
+        // different bytes, equal object. The ML-KEM decoder of the `ml-kem` dependency reduces
+        // non-canonical 12-bit coefficients, so bytes that differ only inside a decapsulation key
+        // can decode to the same key: not judged. Any other re-arrangement of the serialized form
+        // that is silently "repaired" by deserialization is an accepted tampering.
+        let only_dk = ib.len() == bytes.len() && {
+            let mut dk_ranges: Vec<(usize, usize)> = vec![];
+            if let Ok(fields) = wire::fields_of("usk", &ib) {
+                for f in fields.iter().filter(|f| f.kind == "secret.flavour" && f.value == 1) {
+                    dk_ranges.push((f.off + f.len + wire::SCALAR, f.off + f.len + wire::SCALAR + wire::DK));
+                }
+            }
+            ib.iter().zip(bytes.iter()).enumerate().all(|(i, (a, b))| a == b || dk_ranges.iter().any(|(lo, hi)| i >= *lo && i < *hi))
+        };
+        if only_dk {
+            col.class("forgeries:non-canonical-mlkem-encoding-of-an-issued-key(not judged)");
+            return Ok(());
+        }
+        col.class(&format!("equal-object-from-different-bytes:{kind}"));
+        let mut msk: MasterSecretKey = de(&fx.msk_bytes).map_err(|e| Fail::new("msk-snapshot-unreadable", e))?;
+        let mut k = forged.clone();
+        if with_cc(|cc| cc.refresh_usk(&mut msk, &mut k, true)).is_ok() {
+            return Err(Fail::new(format!("rearranged-bytes-accepted:{kind}"), format!("a re-arrangement ({kind}) of the serialized form of issued key [{shape}] deserializes to the issued key and is accepted by refresh_usk although these bytes were never issued")));
+        }
         return Ok(());
     }
     col.class("forgeries:deserialized");
